@@ -16,8 +16,9 @@ SPECDIR = os.path.join(vlib.SPEC, "BrokerHTTP")
 
 
 def signature(req, what):
-    return "C14/%s:%s/%s/%s%s" % (what, req["ep"], req["method"] if req["method"] == "OPTIONS" else "any", req["body"],
-                                  ("/nat=" + req["nat"]) if req["ep"] == "client" and req["body"].startswith("legacy") else "")
+    return "C14/%s:%s/%s/%s%s%s" % (what, req["ep"], req["method"] if req["method"] == "OPTIONS" else "any", req["body"],
+                                    ("/nat=" + req["nat"]) if req["ep"] == "client" and req["body"].startswith("legacy") else "",
+                                    "/chunked" if req.get("framing") == "chunked" else "")
 
 
 def run_cases(chk, cases, tag):
@@ -106,7 +107,7 @@ def run(chk, args):
     rng = random.Random(chk.seed)
     if chk.tier == "quick":
         # every body/endpoint/header class with POST and OPTIONS, other methods sampled
-        sel = [c for c in cases if c["req"]["method"] in ("POST", "OPTIONS") or rng.random() < 0.25]
+        sel = [c for c in cases if c["req"]["method"] in ("POST", "OPTIONS") or rng.random() < 0.2]
     else:
         sel = cases
     chk.note("TLC enumerated %d request classes; executing %d" % (len(cases), len(sel)))
@@ -205,14 +206,17 @@ def tcp_part(chk, cases):
             n += 1
             try:
                 c = http.client.HTTPConnection("127.0.0.1", port, timeout=30)
-                c.request(method, path, body=body, headers=headers)
+                if headers.get("Transfer-Encoding") == "chunked":
+                    c.request(method, path, body=body, headers=headers, encode_chunked=True)
+                else:
+                    c.request(method, path, body=body, headers=headers)
                 resp = c.getresponse()
                 resp.read()
                 c.close()
                 return resp.status
             except Exception as e:   # connection dropped / malformed response
                 chk.violation("C14/tcp-no-response:" + what, "broker binary gave no well-formed HTTP response to %s %s (%s: %s)" % (method, path, type(e).__name__, e),
-                              {"method": method, "path": path, "body": repr(body[:200]), "headers": headers})
+                              {"method": method, "path": path, "body": repr(body)[:200], "headers": headers})
                 return None
         for (ep, b), body in bodies.items():
             for m in ("POST", "GET", "OPTIONS", "PUT"):
@@ -224,6 +228,9 @@ def tcp_part(chk, cases):
         for ep in ("debug", "metrics", "prometheus", "robots"):
             for m in ("GET", "POST", "HEAD", "OPTIONS"):
                 one(m, paths[ep], b"", {}, ep)
+        # chunked transfer encoding (no Content-Length)
+        for (ep, b), body in bodies.items():
+            one("POST", paths[ep], iter([body[:7], body[7:]]) if body else iter([b""]), {"Transfer-Encoding": "chunked"}, "%s/%s/chunked" % (ep, b))
         for path in ("/amp/client/", "/amp/client/0/!!!", "/amp/client/1/abc", "/amp/client", "/nonexistent", "/"):
             one("GET", path, b"", {}, "amp-or-other")
         # one valid proxy poll waits out the real 10 s timeout
